@@ -27,7 +27,11 @@ class Tokenizer:
         '@variables': CSSProductions.VARIABLES_SYM,
     }
     _linesep = '\n'
-    unicodesub = re.compile(r'\\[0-9a-fA-F]{1,6}(?:\r\n|[\t\r\n\f\x20])?').sub
+    # escapes are consumed left to right, so an escaped backslash is a unit:
+    # group 1 is only set for unicode escapes, simple escapes are kept
+    unicodesub = re.compile(
+        r'\\(?:([0-9a-fA-F]{1,6})(?:\r\n|[\t\r\n\f\x20])?|[^\n\r\f])'
+    ).sub
     cleanstring = re.compile(r'\\((\r\n)|[\n\r\f])').sub
 
     def __init__(self, macros=None, productions=None, doComments=True):
@@ -110,7 +114,10 @@ class Tokenizer:
 
         def _repl(m):
             "used by unicodesub"
-            num = int(m.group(0)[1:], 16)
+            if m.group(1) is None:
+                # simple escape
+                return m.group(0)
+            num = int(m.group(1), 16)
             if num <= sys.maxunicode:
                 return chr(num)
             else:
